@@ -28,6 +28,7 @@ CONSTANTS NC,          \* connect() coroutine instances (1..NU are user calls, t
           MaxConn,     \* connection attempts the gateway sees
           MaxRefuse, MaxFeed, MaxEof,
           SlowSet,     \* the states ("C", "D", "X") whose status callback suspends; the others return at once
+          MaxSend,     \* send() calls over a behaviour (the user's, and the client's own requests after a connection)
           NCl,         \* close() calls the user makes (1, or 2: a second call while the first is still at work, or after the
                        \* first was abandoned by its caller inside its suspending CLOSED notification)
           CfgWrite     \* TRUE: the serial client, whose connect attempt writes a configuration packet to the freshly
@@ -40,12 +41,13 @@ Closers == 1..NCl
 VARIABLES st, lock, cpc, ck, cconn, cwake, cs, nconn, writer,
           rpc, rcancel, rconn, rwake, avail, q, ppc, pcancel,
           clpc, clwake, now, mon, refusals, feeds, eofs, spawned,
+          nsent,              \* send() calls made so far
           spc, sconn, swake   \* send(): "idle" | "drain" (suspended after a write on link sconn) | "cb" (in the
                               \* suspending DISCONNECTED callback of its fault handler, until swake)
 vars == <<st, lock, cpc, ck, cconn, cwake, cs, nconn, writer, rpc, rcancel, rconn, rwake, avail, q, ppc, pcancel,
-          clpc, clwake, now, mon, refusals, feeds, eofs, spawned, spc, sconn, swake>>
+          clpc, clwake, now, mon, refusals, feeds, eofs, spawned, spc, sconn, swake, nsent>>
 
-sendvars == <<spc, sconn, swake>>
+sendvars == <<spc, sconn, swake, nsent>>
 
 StName(s) == CASE s = "D" -> "DISCONNECTED" [] s = "C" -> "CONNECTED" [] s = "X" -> "CLOSED"
 E(e, s, t, k, sv, conn, r) == [e |-> e, st |-> StName(s), t |-> t, k |-> k, s |-> sv, conn |-> conn, r |-> r]
@@ -63,7 +65,7 @@ Init ==
   /\ q = 0 /\ ppc = "get" /\ pcancel = FALSE
   /\ clpc = [j \in Closers |-> "none"] /\ clwake = [j \in Closers |-> -1] /\ now = 0 /\ mon = MonInit
   /\ refusals = 0 /\ feeds = 0 /\ eofs = 0 /\ spawned = NU
-  /\ spc = "idle" /\ sconn = 0 /\ swake = -1
+  /\ spc = "idle" /\ sconn = 0 /\ swake = -1 /\ nsent = 0
 
 \* mon.last = the events of this step (what a trace of the real client is matched against)
 Emit(evs) == mon' = [MonRun(mon, evs, 1) EXCEPT !.last = evs]
@@ -379,15 +381,15 @@ Eof(c) ==
 \* send(): the user may call it at any time once a link exists (also while close() runs, also after it).  The write
 \* goes to the current link; drain() may suspend (back-pressure).  One send at a time (MC_Send has the lock).
 SendStart ==
-  /\ spc = "idle" /\ writer # 0 /\ sconn = 0           \* (one send per behaviour keeps the model small)
-  /\ spc' = "drain" /\ sconn' = writer
+  /\ spc = "idle" /\ writer # 0 /\ nsent < MaxSend     \* (calls queue on the send lock: one is on the link at a time)
+  /\ spc' = "drain" /\ sconn' = writer /\ nsent' = nsent + 1
   /\ UNCHANGED <<st, lock, cpc, ck, cconn, cwake, cs, nconn, writer, rpc, rcancel, rconn, rwake, avail, q, ppc, pcancel,
                  clpc, clwake, now, refusals, feeds, eofs, spawned, swake>> /\ Emit(<<>>)
 \* drain() returns: the link took the data
 SendOk ==
   /\ spc = "drain" /\ cs[sconn] = "open" /\ spc' = "idle"
   /\ UNCHANGED <<st, lock, cpc, ck, cconn, cwake, cs, nconn, writer, rpc, rcancel, rconn, rwake, avail, q, ppc, pcancel,
-                 clpc, clwake, now, refusals, feeds, eofs, spawned, sconn, swake>> /\ Emit(<<>>)
+                 clpc, clwake, now, refusals, feeds, eofs, spawned, sconn, swake, nsent>> /\ Emit(<<>>)
 \* the write or drain() raises (the link died, or close() shut it meanwhile).  The fault handler of send() looks at the
 \* state when the failure surfaces: CLOSED, or the link written to is no longer the current one -> nothing; otherwise
 \* DISCONNECTED is reported (if it is a change) and a connect() is spawned.  (Without the stale-link test TLC finds
@@ -404,13 +406,13 @@ SendFail ==
              THEN /\ spc' = "cb" /\ swake' = now + CbPause /\ UNCHANGED <<cpc, spawned>>
              ELSE /\ spc' = "idle" /\ SpawnConnect /\ UNCHANGED swake
   /\ UNCHANGED <<lock, ck, cconn, cwake, nconn, writer, rpc, rcancel, rconn, rwake, avail, q, ppc, pcancel,
-                 clpc, clwake, now, refusals, feeds, eofs, sconn>>
+                 clpc, clwake, now, refusals, feeds, eofs, sconn, nsent>>
 \* the suspending callback returns: the handler spawns the connect() (whatever the state is by now)
 SWake ==
   /\ spc = "cb" /\ Due(swake) /\ Tick(swake)
   /\ spc' = "idle" /\ swake' = -1 /\ SpawnConnect /\ Emit(<<>>)
   /\ UNCHANGED <<st, lock, ck, cconn, cwake, cs, nconn, writer, rpc, rcancel, rconn, rwake, avail, q, ppc, pcancel,
-                 clpc, clwake, refusals, feeds, eofs, sconn>>
+                 clpc, clwake, refusals, feeds, eofs, sconn, nsent>>
 
 Client == \/ \E i \in Insts : UserConnect(i) \/ SpawnedStart(i) \/ COpened(i) \/ COpenFailed(i) \/ CCfgFail(i) \/ CWake(i)
           \/ \E r \in Conns : RStart(r) \/ RPacket(r) \/ RFault(r) \/ RCancelled(r) \/ RWake(r)
